@@ -804,6 +804,10 @@ def run(ctx):
     pr = db.program('qmail-rspawn')
     rp = pr.fn('report', 'qmail-rspawn.c')
     r5 = rep.rule('C09.5-spawner-folding', 'R-TABLE', 'qmail-rspawn report(): crash->Z, 111->Z, other exit->D, no output->Z; K only if the first K/Z/D report is K and the output does not start with s/h (all byte values, output lengths 0..5)')
+    # the status macros every verdict on a child process goes through (wait.h): as functions of the status word
+    from rules import libtab as _lt
+    for inst_, v_ in sorted(_lt.waitmacro_sites(db, 'qmail-rspawn.c').items()):
+        r5.check(v_[0], inst_, v_[1], v_[2], v_[3])
     H5, st5 = report_explore(db, rep)
     for inst, (ok, where, detail, path) in sorted(H5.sites.items()):
         r5.check(ok, inst, where, detail, path)
